@@ -198,6 +198,127 @@ impl UnifiedCommandExecutor {
             }),
 //@@ body
 //@@ end
+// ZPOPMIN / ZPOPMAX on the script path: exactly min(count, cardinality) members leave, the extreme ones first; a count of 0 pops nothing
+//@@ unit exec_zpopmin arm src/storage/commands/executor.rs UnifiedCommandExecutor::execute_sorted_set "SortedSetCommand::ZPopMin { key, count }"
+//@@   rewrite RXPR "members.into_iter().next()" "verif_first(members)"
+//@@   rewrite RXPR "score.to_string()" "score"
+//@@   rewrite RT "RespFrame::from_string(" "verif_score_frame("
+//@@   rewrite RT "let mut popped = Vec::new();" "let mut popped: Vec<RespFrame> = Vec::new();"
+//@@   rewrite RFORC 0
+//@@   loop 0
+//@@|     invariant_except_break
+//@@|         popped@.len() == 2 * ___n,
+//@@|     invariant
+//@@|         ___n <= ___end, ___end == count_val, popped@.len() % 2 == 0, popped@.len() / 2 <= count_val,
+//@@|         other_type(old(self).storage.ds@, db as int, key@) ==> self.storage.ds@ == old(self).storage.ds@ && self.storage.ttl@ == old(self).storage.ttl@ && self.storage.z@ == old(self).storage.z@ && popped@.len() == 0,
+//@@|         !other_type(old(self).storage.ds@, db as int, key@) ==> !other_type(self.storage.ds@, db as int, key@) && ({
+//@@|             let s = zpop_upto(old(self).storage, db as int, key@, (popped@.len() / 2) as int, true);
+//@@|             self.storage.ds@ == s.1 && self.storage.ttl@ == s.2 && self.storage.z@ == s.3 && zpop_reply(popped@, s.0) && s.0.len() == popped@.len() / 2 }),
+//@@|     ensures
+//@@|         other_type(old(self).storage.ds@, db as int, key@) ==> count_val == 0,
+//@@|         !other_type(old(self).storage.ds@, db as int, key@) ==> (popped@.len() / 2 == count_val || zmembers(self.storage.z@, db as int, key@).dom().len() == 0),
+//@@|     decreases ___end - ___n,
+//@@   at "let count_val = count.unwrap_or(1);"
+//@@|     broadcast use {axiom_zmin_member, axiom_zmax_member};
+//@@   loopstart 0
+//@@|     let ghost n0 = (popped@.len() / 2) as int; let ghost res0 = popped@;
+//@@|     proof { reveal_with_fuel(zpop_upto, 2); }
+//@@   at "if self.storage.zrem(db, &key, &member)?"
+//@@|     proof {
+//@@|         let zm = zmembers(self.storage.z@, db as int, key@);
+//@@|         assert(zm.dom().len() > 0);
+//@@|         axiom_zmin_member(zm); axiom_zmax_member(zm);
+//@@|         assert(zm.contains_key(member@));
+//@@|     }
+//@@   after "popped.push(RespFrame::from_string(score.to_string()));"
+//@@|     proof {
+//@@|         let s1 = zpop_upto(old(self).storage, db as int, key@, n0 + 1, true);
+//@@|         assert(popped@.len() == res0.len() + 2);
+//@@|         assert(popped@.len() / 2 == n0 + 1);
+//@@|         assert forall|j: int| 0 <= j < s1.0.len() implies bulk_reply(#[trigger] popped@[2 * j]) == Some(Some(s1.0[j].0)) && popped@[2 * j + 1] == score_text(s1.0[j].1) by {
+//@@|             if j < n0 { assert(popped@[2 * j] == res0[2 * j]); assert(popped@[2 * j + 1] == res0[2 * j + 1]); }
+//@@|         }
+//@@|     }
+//@@   afterloop 0
+//@@|     proof {
+//@@|         if !other_type(old(self).storage.ds@, db as int, key@) && popped@.len() / 2 != count_val {
+//@@|             lemma_zpop_stable(old(self).storage, db as int, key@, (popped@.len() / 2) as int, count_val as int, true);
+//@@|         }
+//@@|     }
+    fn exec_zpopmin(&mut self, db: usize, key: Vec<u8>, count: Option<usize>) -> (r: Result<RespFrame>)
+        ensures ({
+            let n = match count { Some(c) => c as int, None => 1int };
+            if other_type(old(self).storage.ds@, db as int, key@) {
+                (n > 0 ==> !(r matches Ok(f) && !(f is Error))) && final(self).storage.ds@ == old(self).storage.ds@ && final(self).storage.z@ == old(self).storage.z@
+            } else {
+                let s = zpop_upto(old(self).storage, db as int, key@, n, true);
+                r is Ok && final(self).storage.ds@ == s.1 && final(self).storage.ttl@ == s.2 && final(self).storage.z@ == s.3
+                && (r->Ok_0 matches RespFrame::Array(Some(v)) && zpop_reply(v@, s.0))
+            }
+        }),
+//@@ body
+//@@ end
+
+//@@ unit exec_zpopmax arm src/storage/commands/executor.rs UnifiedCommandExecutor::execute_sorted_set "SortedSetCommand::ZPopMax { key, count }"
+//@@   rewrite RXPR "members.into_iter().next()" "verif_first(members)"
+//@@   rewrite RXPR "score.to_string()" "score"
+//@@   rewrite RT "RespFrame::from_string(" "verif_score_frame("
+//@@   rewrite RT "let mut popped = Vec::new();" "let mut popped: Vec<RespFrame> = Vec::new();"
+//@@   rewrite RFORC 0
+//@@   loop 0
+//@@|     invariant_except_break
+//@@|         popped@.len() == 2 * ___n,
+//@@|     invariant
+//@@|         ___n <= ___end, ___end == count_val, popped@.len() % 2 == 0, popped@.len() / 2 <= count_val,
+//@@|         other_type(old(self).storage.ds@, db as int, key@) ==> self.storage.ds@ == old(self).storage.ds@ && self.storage.ttl@ == old(self).storage.ttl@ && self.storage.z@ == old(self).storage.z@ && popped@.len() == 0,
+//@@|         !other_type(old(self).storage.ds@, db as int, key@) ==> !other_type(self.storage.ds@, db as int, key@) && ({
+//@@|             let s = zpop_upto(old(self).storage, db as int, key@, (popped@.len() / 2) as int, false);
+//@@|             self.storage.ds@ == s.1 && self.storage.ttl@ == s.2 && self.storage.z@ == s.3 && zpop_reply(popped@, s.0) && s.0.len() == popped@.len() / 2 }),
+//@@|     ensures
+//@@|         other_type(old(self).storage.ds@, db as int, key@) ==> count_val == 0,
+//@@|         !other_type(old(self).storage.ds@, db as int, key@) ==> (popped@.len() / 2 == count_val || zmembers(self.storage.z@, db as int, key@).dom().len() == 0),
+//@@|     decreases ___end - ___n,
+//@@   at "let count_val = count.unwrap_or(1);"
+//@@|     broadcast use {axiom_zmin_member, axiom_zmax_member};
+//@@   loopstart 0
+//@@|     let ghost n0 = (popped@.len() / 2) as int; let ghost res0 = popped@;
+//@@|     proof { reveal_with_fuel(zpop_upto, 2); }
+//@@   at "if self.storage.zrem(db, &key, &member)?"
+//@@|     proof {
+//@@|         let zm = zmembers(self.storage.z@, db as int, key@);
+//@@|         assert(zm.dom().len() > 0);
+//@@|         axiom_zmin_member(zm); axiom_zmax_member(zm);
+//@@|         assert(zm.contains_key(member@));
+//@@|     }
+//@@   after "popped.push(RespFrame::from_string(score.to_string()));"
+//@@|     proof {
+//@@|         let s1 = zpop_upto(old(self).storage, db as int, key@, n0 + 1, false);
+//@@|         assert(popped@.len() == res0.len() + 2);
+//@@|         assert(popped@.len() / 2 == n0 + 1);
+//@@|         assert forall|j: int| 0 <= j < s1.0.len() implies bulk_reply(#[trigger] popped@[2 * j]) == Some(Some(s1.0[j].0)) && popped@[2 * j + 1] == score_text(s1.0[j].1) by {
+//@@|             if j < n0 { assert(popped@[2 * j] == res0[2 * j]); assert(popped@[2 * j + 1] == res0[2 * j + 1]); }
+//@@|         }
+//@@|     }
+//@@   afterloop 0
+//@@|     proof {
+//@@|         if !other_type(old(self).storage.ds@, db as int, key@) && popped@.len() / 2 != count_val {
+//@@|             lemma_zpop_stable(old(self).storage, db as int, key@, (popped@.len() / 2) as int, count_val as int, false);
+//@@|         }
+//@@|     }
+    fn exec_zpopmax(&mut self, db: usize, key: Vec<u8>, count: Option<usize>) -> (r: Result<RespFrame>)
+        ensures ({
+            let n = match count { Some(c) => c as int, None => 1int };
+            if other_type(old(self).storage.ds@, db as int, key@) {
+                (n > 0 ==> !(r matches Ok(f) && !(f is Error))) && final(self).storage.ds@ == old(self).storage.ds@ && final(self).storage.z@ == old(self).storage.z@
+            } else {
+                let s = zpop_upto(old(self).storage, db as int, key@, n, false);
+                r is Ok && final(self).storage.ds@ == s.1 && final(self).storage.ttl@ == s.2 && final(self).storage.z@ == s.3
+                && (r->Ok_0 matches RespFrame::Array(Some(v)) && zpop_reply(v@, s.0))
+            }
+        }),
+//@@ body
+//@@ end
+
 //@@ unit exec_zrem arm src/storage/commands/executor.rs UnifiedCommandExecutor::execute_sorted_set "SortedSetCommand::ZRem { key, members }"
 //@@   rewrite RT "let mut removed = 0;" "let mut removed: i64 = 0;"
 //@@   rewrite RFOR 0 it
